@@ -374,9 +374,28 @@ class Result:
             self.violations.append((key, replay, text))
 
 
+CLASS_FLAG_NAMES = ("digit", "nondigit", "space", "nonspace", "word", "nonword")
+
+
+def concerns(prop, v, driver, idx):
+    """Does verdict v count against `prop`?  The monitor names the properties itself; one attribution depends
+    on what was driven: C09 also says that 'a converted pattern always still matches the character it was
+    derived from', so in the class sweep (one character, or one character + modifier, class options only) a
+    soundness verdict (the output does not accept its only test case, is invalid, or the build panicked) is a
+    C09 verdict too."""
+    props = v.get("props", [])
+    if prop in props:
+        return True
+    if prop == "C09" and str(driver).startswith("class-sweep") and "C01" in props and "h" not in v:
+        g = idx.get(("g", v.get("g"))) or {}
+        rr = [r for r in g.get("runs", []) if r.get("r") == v.get("r")]
+        return bool(rr) and any(rr[0].get("cfg", {}).get(f) is True for f in CLASS_FLAG_NAMES)
+    return False
+
+
 def classify_trace_verdicts(res, known, verdicts, idx, driver):
     """Keep the verdicts that concern res.prop; split into known findings / violations."""
-    mine = [v for v in verdicts if res.prop in v.get("props", [])]
+    mine = [v for v in verdicts if concerns(res.prop, v, driver, idx)]
     tool = [v for v in verdicts if "TOOL" in v.get("props", [])]
     for v in tool[:20]:
         g = idx.get(("g", v["g"])) or idx.get(("h", v.get("h"))) or {}
